@@ -1,6 +1,7 @@
 CONSTANTS
   MaxConn = 3
   MaxSteps = 14
+  UseNames = FALSE
   GenMode = FALSE
 SPECIFICATION MSpec
 VIEW mview
